@@ -24,7 +24,10 @@ RULE = ('ha-tie: C01 generators (random, constructed quotient ties, zero-vote/ca
         'upward move of w (one place up, to the top; approve w; raise w\'s score) and every added ballot ranking w first (a bullet vote for all rules; '
         'also longer ballots for the additive rules) must again give [w]. non-trivial = a tie in either result / '
         'a binding cap / previous gains (house, votes), or the move changes some candidate\'s standing (sole-winner); distinct by case hash')
-PARTIAL = ['Schulze / Bucklin monotonicity: decided per explored case by the relational checker, not proved (Copeland and minimax are proved: C17_copeland, C17_minimax)',
+PARTIAL = ['Schulze sole-winner monotonicity: REFUTED for votelib\'s ranking by the number of path-wins (C17_schulze_refuted, witnesses C17_schulze_witness / '
+           'C17_schulze_witness_loses, known finding C17-schulze-path-win-count, corpus/C17/schulze-winner-*.json); proved instead: the winner keeps every path-win, '
+           'gets no path-defeat and its count does not drop (C17_schulze_partial)',
+           'Bucklin monotonicity: decided per explored case by the relational checker, not proved (Copeland and minimax are proved: C17_copeland, C17_minimax)',
            'vote monotonicity with zero-vote parties or when the larger run ends in a tie or with caps exhausted: relational checker only',
            'positional rules: C17_positional needs the scorer to be non-increasing at the two places; proved for Dowdall, modified Borda and '
            'fixed top, checked per case for Borda, geometric and sequence-based scorers']
@@ -211,6 +214,69 @@ def upward_moves(b, w):
         yield [w] + b[:i] + b[i + 1:]
 
 
+def strongest_paths(pairs, cands):
+    """independent reference: strength of the strongest beat-path a -> b = the largest s such that b is reachable from a
+    through direct wins carried by at least s winning votes (threshold search, no Floyd-Warshall)"""
+    link = {}
+    for a in cands:
+        for b in cands:
+            if a != b and pairs.get((a, b), 0) > pairs.get((b, a), 0):
+                link[a, b] = pairs[a, b]
+    levels = sorted(set(link.values()), reverse=True)
+    P = {}
+    for a in cands:
+        for s in levels:
+            seen, todo = {a}, [a]
+            while todo:
+                x = todo.pop()
+                for y in cands:
+                    if y not in seen and link.get((x, y), 0) >= s:
+                        seen.add(y)
+                        todo.append(y)
+            for y in seen:
+                if y != a and (a, y) not in P:
+                    P[a, y] = s
+    return P
+
+
+def moved_profile(case):
+    if case.get('kind') == 'sole-ranked':
+        return moved([[list(b), w] for b, w in case['profile']], case['ballot'], list(case['new_ballot']))
+    if case.get('kind') == 'sole-added':
+        p2 = [[list(b), w] for b, w in case['profile']]
+        for x in p2:
+            if x[0] == list(case['new_ballot']):
+                x[1] += 1
+                return p2
+        return p2 + [[list(case['new_ballot']), 1]]
+    return None
+
+
+def schulze_known_class(case, io, mo):
+    """C17-schulze-path-win-count (refuted: Props/C17.v C17_schulze_refuted): votelib ranks by the NUMBER of path-wins.
+    The deviation belongs to this class iff, by an independent strongest-path computation on both profiles, the old winner
+    kept every path-win and suffers no path-defeat (what C17_schulze_partial proves) - i.e. only the others' counts rose."""
+    if case.get('rule') != 'schulze':
+        return None
+    import votelib.convert as conv
+    p2 = moved_profile(case)
+    if p2 is None:
+        return None
+    w = cname(case['winner'])
+    cv = conv.RankedToCondorcetVotes()
+    v1, v2 = cv.convert(py_ranked(case['profile'])), cv.convert(py_ranked(p2))
+    cs = sorted({x for pr in list(v1) + list(v2) for x in pr})
+    P1, P2 = strongest_paths(v1, cs), strongest_paths(v2, cs)
+    for x in cs:
+        if x == w:
+            continue
+        if P2.get((w, x), 0) < P1.get((w, x), 0) or P2.get((x, w), 0) > P1.get((x, w), 0):
+            return None          # a path out of the winner weakened / into it strengthened: NOT the known class
+        if P2.get((x, w), 0) > P2.get((w, x), 0):
+            return None          # the old winner is path-defeated: a different (unexpected) failure
+    return 'C17-schulze-path-win-count'
+
+
 def sole_winner_ranked(ctx, stream, count, rng):
     bad = n = 0
     for _ in range(count):
@@ -252,7 +318,8 @@ def sole_winner_ranked(ctx, stream, count, rng):
                 bad += 1
                 ctx.checker_false += 1
                 ctx.report(stream, case, str(r1[1:]), 'n/a',
-                           '%s: sole winner %s no longer the sole winner after ADDING the ballot %s: %s' % (rule, cname(w), nb, r1[1:]))
+                           '%s: sole winner %s no longer the sole winner after ADDING the ballot %s: %s' % (rule, cname(w), nb, r1[1:]),
+                           known_class=schulze_known_class)
         for bi, (b, _) in enumerate(prof):
             for b2 in upward_moves(b, w):
                 p2 = moved(prof, bi, b2)
@@ -266,7 +333,7 @@ def sole_winner_ranked(ctx, stream, count, rng):
                     ctx.checker_false += 1
                     ctx.report(stream, case, str(r1[1:]), 'n/a',
                                '%s: sole winner %s no longer the sole winner after moving it up on one ballot (%s -> %s): %s'
-                               % (rule, cname(w), b, b2, r1[1:]))
+                               % (rule, cname(w), b, b2, r1[1:]), known_class=schulze_known_class)
     ctx.streams[stream] = dict(cases=n, deviations=bad)
 
 
@@ -355,7 +422,8 @@ def run_corpus_case(ctx, c, stream='corpus'):
         r1 = common.call_impl(lambda: ev.evaluate(py_ranked(p2), 1), 10)
         if r0[0] == 'ok' and sole_winner(r0[1]) == c['winner'] and not (r1[0] == 'ok' and sole_winner(r1[1]) == c['winner']):
             ctx.checker_false += 1
-            ctx.report(stream, c, str(r1[1:]), 'n/a', '%s: sole winner lost after adding a ballot that ranks it first' % c['rule'])
+            ctx.report(stream, c, str(r1[1:]), 'n/a', '%s: sole winner lost after adding a ballot that ranks it first' % c['rule'],
+                       known_class=schulze_known_class)
     elif k == 'sole-ranked':
         ctx.evaluations += 1
         ev = ranked_evaluator(c['rule'])
@@ -364,7 +432,8 @@ def run_corpus_case(ctx, c, stream='corpus'):
         r1 = common.call_impl(lambda: ev.evaluate(py_ranked(p2), 1), 10)
         if r0[0] == 'ok' and sole_winner(r0[1]) == c['winner'] and not (r1[0] == 'ok' and sole_winner(r1[1]) == c['winner']):
             ctx.checker_false += 1
-            ctx.report(stream, c, str(r1[1:]), 'n/a', '%s: sole winner lost after an upward move' % c['rule'])
+            ctx.report(stream, c, str(r1[1:]), 'n/a', '%s: sole winner lost after an upward move' % c['rule'],
+                       known_class=schulze_known_class)
     elif c.get('unit') == 'highest_averages':
         ctx.differential(stream, [c], c01.model_line, c01.impl, canon=c01.canon, nontrivial=c01.nontrivial)
 
